@@ -243,3 +243,85 @@ theorem report_eq (P : Prims Pt) (w : Wallet) (account a b : Nat) :
         cases bip85Data P w <;> rfl
 
 end BtcHd.TrPaper
+
+namespace BtcHd.TrPaper
+open BtcHd Wallet
+
+/-- `paranoia_mode(data)` (`__main__.py`): the translated dict comprehension is the model's filter -/
+theorem paranoia_eq (data : Json) : CodeObj3.paranoia_mode data = paranoia data := by
+  unfold CodeObj3.paranoia_mode paranoia
+  have hk : ([([Char.ofNat 66, Char.ofNat 73, Char.ofNat 80, Char.ofNat 52, Char.ofNat 52] : List Char),
+      ([Char.ofNat 66, Char.ofNat 73, Char.ofNat 80, Char.ofNat 52, Char.ofNat 57] : List Char),
+      ([Char.ofNat 66, Char.ofNat 73, Char.ofNat 80, Char.ofNat 56, Char.ofNat 52] : List Char)] : List (List Char)) =
+      Generated.paranoiaKeys := by decide
+  cases data with
+  | null => rfl
+  | str s => rfl
+  | arr xs => rfl
+  | obj kvs =>
+    simp only [Py.jsonItems, hk]
+    have hent : ∀ (kv : List Char × Json), (do
+        let k := kv.1
+        let v := kv.2
+        pure (k, Json.obj [
+          (([Char.ofNat 97, Char.ofNat 99, Char.ofNat 99, Char.ofNat 111, Char.ofNat 117, Char.ofNat 110, Char.ofNat 116, Char.ofNat 95, Char.ofNat 101, Char.ofNat 120, Char.ofNat 116, Char.ofNat 101, Char.ofNat 110, Char.ofNat 100, Char.ofNat 101, Char.ofNat 100, Char.ofNat 95, Char.ofNat 107, Char.ofNat 101, Char.ofNat 121, Char.ofNat 115] : List Char),
+            Json.obj [(([Char.ofNat 112, Char.ofNat 97, Char.ofNat 116, Char.ofNat 104] : List Char),
+                (← Py.jsonGet (← Py.jsonGet v ([Char.ofNat 97, Char.ofNat 99, Char.ofNat 99, Char.ofNat 111, Char.ofNat 117, Char.ofNat 110, Char.ofNat 116, Char.ofNat 95, Char.ofNat 101, Char.ofNat 120, Char.ofNat 116, Char.ofNat 101, Char.ofNat 110, Char.ofNat 100, Char.ofNat 101, Char.ofNat 100, Char.ofNat 95, Char.ofNat 107, Char.ofNat 101, Char.ofNat 121, Char.ofNat 115] : List Char)) ([Char.ofNat 112, Char.ofNat 97, Char.ofNat 116, Char.ofNat 104] : List Char))),
+              (([Char.ofNat 112, Char.ofNat 117, Char.ofNat 98] : List Char),
+                (← Py.jsonGet (← Py.jsonGet v ([Char.ofNat 97, Char.ofNat 99, Char.ofNat 99, Char.ofNat 111, Char.ofNat 117, Char.ofNat 110, Char.ofNat 116, Char.ofNat 95, Char.ofNat 101, Char.ofNat 120, Char.ofNat 116, Char.ofNat 101, Char.ofNat 110, Char.ofNat 100, Char.ofNat 101, Char.ofNat 100, Char.ofNat 95, Char.ofNat 107, Char.ofNat 101, Char.ofNat 121, Char.ofNat 115] : List Char)) ([Char.ofNat 112, Char.ofNat 117, Char.ofNat 98] : List Char)))]),
+          (([Char.ofNat 103, Char.ofNat 114, Char.ofNat 111, Char.ofNat 117, Char.ofNat 112, Char.ofNat 115] : List Char),
+            Json.arr (← (← Py.jsonElems (← Py.jsonGet v ([Char.ofNat 103, Char.ofNat 114, Char.ofNat 111, Char.ofNat 117, Char.ofNat 112, Char.ofNat 115] : List Char))).mapM (fun group => Py.jsonDropLast group)))]) :
+          Option (List Char × Json)) = (paranoiaEntry kv.2).map fun e => (kv.1, e) := by
+      intro kv
+      obtain ⟨k, v⟩ := kv
+      have e1 : "account_extended_keys".toList = ([Char.ofNat 97, Char.ofNat 99, Char.ofNat 99, Char.ofNat 111, Char.ofNat 117, Char.ofNat 110, Char.ofNat 116, Char.ofNat 95, Char.ofNat 101, Char.ofNat 120, Char.ofNat 116, Char.ofNat 101, Char.ofNat 110, Char.ofNat 100, Char.ofNat 101, Char.ofNat 100, Char.ofNat 95, Char.ofNat 107, Char.ofNat 101, Char.ofNat 121, Char.ofNat 115] : List Char) := by decide
+      have e2 : "groups".toList = ([Char.ofNat 103, Char.ofNat 114, Char.ofNat 111, Char.ofNat 117, Char.ofNat 112, Char.ofNat 115] : List Char) := by decide
+      have e3 : "path".toList = ([Char.ofNat 112, Char.ofNat 97, Char.ofNat 116, Char.ofNat 104] : List Char) := by decide
+      have e4 : "pub".toList = ([Char.ofNat 112, Char.ofNat 117, Char.ofNat 98] : List Char) := by decide
+      have hrows : ∀ rows : List Json, rows.mapM (fun group => Py.jsonDropLast group) =
+          rows.mapM (fun (r : Json) => match r with | Json.arr cols => some (Json.arr cols.dropLast) | _ => none) := by
+        intro rows
+        congr 1
+      unfold paranoiaEntry
+      rw [e1, e2, e3, e4]
+      cases v with
+      | null => rfl
+      | str s => rfl
+      | arr xs => rfl
+      | obj inner =>
+        simp only [Py.jsonGet]
+        cases h1 : inner.lookup ([Char.ofNat 97, Char.ofNat 99, Char.ofNat 99, Char.ofNat 111, Char.ofNat 117, Char.ofNat 110, Char.ofNat 116, Char.ofNat 95, Char.ofNat 101, Char.ofNat 120, Char.ofNat 116, Char.ofNat 101, Char.ofNat 110, Char.ofNat 100, Char.ofNat 101, Char.ofNat 100, Char.ofNat 95, Char.ofNat 107, Char.ofNat 101, Char.ofNat 121, Char.ofNat 115] : List Char) with
+        | none => rfl
+        | some ak =>
+          cases ak with
+          | null => simp [Py.jsonGet]
+          | str s => simp [Py.jsonGet]
+          | arr xs => simp [Py.jsonGet]
+          | obj keys =>
+            simp only [Option.pure_def, Option.bind_eq_bind, Option.bind_some, Py.jsonGet]
+            cases h3 : keys.lookup ([Char.ofNat 112, Char.ofNat 97, Char.ofNat 116, Char.ofNat 104] : List Char) with
+            | none => simp; cases inner.lookup ([Char.ofNat 103, Char.ofNat 114, Char.ofNat 111, Char.ofNat 117, Char.ofNat 112, Char.ofNat 115] : List Char) with
+                | none => rfl
+                | some g => cases g <;> simp [*]
+            | some pth =>
+              cases h4 : keys.lookup ([Char.ofNat 112, Char.ofNat 117, Char.ofNat 98] : List Char) with
+              | none => simp; cases inner.lookup ([Char.ofNat 103, Char.ofNat 114, Char.ofNat 111, Char.ofNat 117, Char.ofNat 112, Char.ofNat 115] : List Char) with
+                  | none => rfl
+                  | some g => cases g <;> simp [*]
+              | some pub =>
+                cases h2 : inner.lookup ([Char.ofNat 103, Char.ofNat 114, Char.ofNat 111, Char.ofNat 117, Char.ofNat 112, Char.ofNat 115] : List Char) with
+                | none => rfl
+                | some g =>
+                  cases g with
+                  | null => simp [Py.jsonElems]
+                  | str s => simp [Py.jsonElems]
+                  | obj o => simp [Py.jsonElems]
+                  | arr rows =>
+                    simp only [Option.bind_some, Py.jsonElems, hrows, h3, h4]
+                    cases rows.mapM (fun (r : Json) => match r with | Json.arr cols => some (Json.arr cols.dropLast) | _ => none) <;> rfl
+    simp only [hent]
+    simp only [Option.pure_def, Option.bind_eq_bind, Option.bind_some]
+    cases (kvs.filter fun (kv : List Char × Json) => decide (kv.1 ∈ Generated.paranoiaKeys)).mapM
+      (fun (kv : List Char × Json) => (paranoiaEntry kv.2).map fun e => (kv.1, e)) <;> rfl
+
+end BtcHd.TrPaper
